@@ -41,6 +41,16 @@ Theorem C14_repeat_is_idempotent (c : call) (s : state) mth a r :
 Proof. apply out_ext. intros k. apply post_of_id. Qed.
 End History.
 
+(* constructors with a seed= parameter reseed the global generator for every seed that is given (0 included) and for none otherwise:
+   with a seed in the configuration the first result of a fresh object does not depend on the state of the global generator *)
+Theorem C14_given_seed_reseeds (z : Z) :
+  reseeds_RandomizedSketchProjectPseudoinverse (Some z) = true /\ reseeds_HybridRSPNewtonSchulz (Some z) = true /\ reseeds_CGNEQSolver (Some z) = true.
+Proof. repeat split. Qed.
+Theorem C14_no_seed_no_reseed :
+  reseeds_RandomizedSketchProjectPseudoinverse None = false /\ reseeds_HybridRSPNewtonSchulz None = false /\ reseeds_CGNEQSolver None = false.
+Proof. repeat split. Qed.
+
 Print Assumptions C14_no_method_writes_fields.
 Print Assumptions C14_reuse_equals_fresh.
 Print Assumptions C14_repeat_is_idempotent.
+Print Assumptions C14_given_seed_reseeds.
